@@ -237,6 +237,47 @@ func checkC17(c *Ctx) {
 		}
 		os.RemoveAll(base)
 	}
+	// objects of more than 1 MiB next to one another in the stream of `cat-file --batch` (two successive commits whose
+	// root trees have 32 000 entries): whatever buffers the reader keeps, the consumer must see each object intact
+	{
+		sc := bigObjectsCase()
+		base, _ := os.MkdirTemp(c.Scratch, "bigobj-")
+		repoDir := filepath.Join(base, "r")
+		if _, err := materialiseCase(repoDir, &sc); err != nil {
+			Infra("big-object repository: %v", err)
+		}
+		nrep := 6
+		if !quick(c) {
+			nrep = 24
+		}
+		first := ""
+		for rep := 0; rep < nrep; rep++ {
+			res := race.Run(run.Opt{Dir: repoDir, Args: []string{"--json", "--no-progress"}, Home: base, Timeout: 120 * time.Second,
+				Env: []string{fmt.Sprintf("GOMAXPROCS=%d", []int{4, 1, 16, 2}[rep%4]), "GORACE=halt_on_error=0"}})
+			total++
+			c.Distinct(fmt.Sprintf("bigobjects/%d", rep))
+			why := ""
+			switch {
+			case strings.Contains(string(res.Stderr), "DATA RACE") || res.Exit == 66:
+				why = "data_race_reported"
+			case res.Exit != 0:
+				why = "no_report"
+			case first == "":
+				first = string(res.Stdout)
+				if !strings.Contains(first, "\"max_tree_entries\": 32001") {
+					why = "wrong_report"
+				}
+			case string(res.Stdout) != first:
+				why = "stdout_not_deterministic"
+			}
+			if why != "" {
+				c.AddViolation(Violation{Predicate: why, Spec: "CliRun / determinism (objects above 1 MiB)", Kind: "bigobjects",
+					Input: map[string]interface{}{"case": "c17-bigobjects"}, Observed: map[string]interface{}{"exit": res.Exit, "stderr": tail(string(res.Stderr), 14)}})
+				break
+			}
+		}
+		os.RemoveAll(base)
+	}
 	// every fault-free schedule of process steps of the two pipelines (TLC, Pipeline1X / PipelineX), forced on the -race build
 	e.home = c.Scratch
 	total += checkGatedDeterminism(c, e, race)
@@ -275,6 +316,26 @@ func checkC17(c *Ctx) {
 	c.Note("%d runs of the -race build (digest before/after, stdout compared, race reports monitored)", total)
 }
 
+// bigObjectsCase: three successive commits whose root trees have about 32 000 entries (more than 1 MiB each), a
+// commit and a tag with messages of more than 1 MiB.
+func bigObjectsCase() cases.ScanCase {
+	var g model.Graph
+	names := map[int][]byte{}
+	g.Blobs = []int{3}
+	var t1 []model.Entry
+	for i := 1; i <= 32001; i++ {
+		names[i] = []byte(fmt.Sprintf("file-%06d", i))
+		t1 = append(t1, model.Entry{K: "file", To: 1, N: i, NL: 11})
+	}
+	g.Trees = [][]model.Entry{t1[:32000], t1, t1[:31999]}
+	g.Commits = []model.Commit{{Tree: 1, Parents: []int{}}, {Tree: 2, Parents: []int{1}}, {Tree: 3, Parents: []int{2}, Size: 1200000}}
+	g.Tags = []model.Tag{{TK: "c", To: 3, Size: 1100000}}
+	g.Normalize()
+	return cases.ScanCase{ID: "c17-bigobjects", G: g, Names: names, Style: "full", Roots: []cases.RootSpec{
+		{O: model.Oid{K: "c", I: 3}, Walk: true, IsRef: true, Name: "refs/heads/main", Kind: "plain"},
+		{O: model.Oid{K: "g", I: 1}, Walk: true, IsRef: true, Name: "refs/tags/big", Kind: "plain"}}}
+}
+
 func tiesGitconfig() string {
 	var b strings.Builder
 	for i := 0; i < 6; i++ {
@@ -303,4 +364,5 @@ func init() {
 	replays["det"] = replayDet
 	replays["ties"] = replayTies
 	replays["large"] = replayLarge
+	replays["bigobjects"] = replayBigObjects
 }
